@@ -17,7 +17,9 @@ Python fragment understood
   expressions: int literals, names, `+ - * ** << &`, unary `not`, comparisons (chained),
                `and`/`or` in a test position, `a / b > c` on ints (exact rational comparison,
                prelude `Py.trueDivGt`), `len(l)`, `l[0]`, truthiness of ints and lists,
-               `isinstance(param, T)` decided from the specialisation,
+               `isinstance(x, T)` decided from the static type (parameters: the specialisation),
+               `s.isascii()`, `s.isdecimal()`, `try: x = int(s)` / `except ValueError: raise …`,
+               `os.path.abspath/join`, `if commonpath([a, b]) != c`, `s.startswith("lit")`, `s[k:]`,
                `[sha256(x + y).digest() for x, y in zip(*[iter(l)] * 2)]`
   values     : int (Lean `Int`), bool, bytes (`List UInt8`), list of bytes
 A `while` loop becomes a structurally recursive function with a fuel argument; the translated
@@ -38,9 +40,11 @@ TARGETS = {
     "merkle_root": ("torrentfile/hasher.py", {"blocks": "lbytes"}),
     # `str` values are rendered as their UTF-8 bytes, as in the hand-written path models
     "safe_join": ("torrentfile/rebuild.py", {"dest": "str", "relpath": "str"}),
+    # the same function specialised to a `str` argument (`text` = list of code points)
+    "normalize_piece_length__str": ("torrentfile/utils.py", {"piece_length": "text"}),
 }
 
-LEAN_TY = {"str": "List UInt8", "int": "Int", "bool": "Bool", "bytes": "List UInt8", "lbytes": "List (List UInt8)"}
+LEAN_TY = {"text": "List Char", "str": "List UInt8", "int": "Int", "bool": "Bool", "bytes": "List UInt8", "lbytes": "List (List UInt8)"}
 WRAP = {"str": "Py.Val.bytes", "none": "Py.Val.none", "int": "Py.Val.int", "bool": "Py.Val.bool", "bytes": "Py.Val.bytes",
         "lbytes": "Py.Val.blist"}
 
@@ -63,6 +67,7 @@ class Fn:
             _bad(node, "parameters differ from the specialisation")
         self.loops = []                  # emitted auxiliary definitions
         self.uses_path = False
+        self.in_loop = False
         self.uses_hash = False
         self.spec = dict(ptypes)
 
@@ -178,11 +183,15 @@ class Fn:
             x, t = e.args
             if isinstance(x, ast.Name) and x.id in self.spec and isinstance(t, ast.Name):
                 # decided by the specialisation; only for a parameter not yet reassigned
-                if x.id in self.reassigned:
-                    _bad(e, "isinstance of a reassigned parameter")
-                have = {"int": "int", "lbytes": "list", "str": "str"}[self.spec[x.id]]
+                have = {"int": "int", "lbytes": "list", "str": "str", "text": "str",
+                        "bytes": "bytes", "bool": "bool"}[self.env[x.id]]
                 return ("true" if t.id == have else "false"), "bool"
             _bad(e, "isinstance not decidable from the specialisation")
+        if (isinstance(f, ast.Attribute) and f.attr in ("isascii", "isdecimal") and not e.args):
+            a, ta = self.expr(f.value)
+            if ta != "text":
+                _bad(e, "str method on a non-string")
+            return f"(Py.{f.attr} {a})", "bool"
         if isinstance(f, ast.Name) and f.id == "str" and len(e.args) == 1:
             a, ta = self.expr(e.args[0])
             if ta != "str":
@@ -280,8 +289,8 @@ class Fn:
             name = s.target.id
             txt, ty = self.expr(ast.BinOp(left=ast.Name(id=name, ctx=ast.Load()), op=s.op,
                                           right=s.value))
-        if name in self.env and self.env[name] != ty:
-            _bad(s, "variable changes type")
+        if name in self.env and self.env[name] != ty and self.in_loop:
+            _bad(s, "variable changes type inside a loop")
         self.env[name] = ty
         self.reassigned.add(name)
         return f"let {name} : {LEAN_TY[ty]} := {txt}"
@@ -338,6 +347,30 @@ class Fn:
                 _bad(s, "raise form")
             t = f"Except.error \"{name}\""
             return pad + (f"some ({t})" if opt else t)
+        if isinstance(s, ast.Try):
+            ok = (len(s.body) == 1 and isinstance(s.body[0], ast.Assign) and not s.orelse
+                  and not s.finalbody and len(s.handlers) == 1
+                  and isinstance(s.handlers[0].type, ast.Name)
+                  and s.handlers[0].type.id == "ValueError"
+                  and isinstance(s.body[0].value, ast.Call)
+                  and isinstance(s.body[0].value.func, ast.Name)
+                  and s.body[0].value.func.id == "int" and len(s.body[0].value.args) == 1
+                  and len(s.body[0].targets) == 1 and isinstance(s.body[0].targets[0], ast.Name)
+                  and self.terminates(s.handlers[0].body) and tail is None)
+            if not ok:
+                _bad(s, "only `try: x = int(s)` / `except ValueError: raise ...` is understood")
+            arg, ta = self.expr(s.body[0].value.args[0])
+            if ta != "text":
+                _bad(s, "int() of a non-string")
+            name = s.body[0].targets[0].id
+            saved_env, saved_re = dict(self.env), set(self.reassigned)
+            handler = self.block(s.handlers[0].body, ind + 1, opt, tail)
+            self.env, self.reassigned = dict(saved_env), set(saved_re)
+            self.env[name] = "int"
+            self.reassigned.add(name)
+            after = self.block(rest, ind + 1, opt, tail)
+            return (f"{pad}match Py.intOfText {arg} with\n{pad}| none =>\n{handler}\n"
+                    f"{pad}| some {name} =>\n{after}")
         if isinstance(s, ast.If) and self.fallible(s.test):
             t = s.test
             if isinstance(t, ast.BoolOp):
@@ -390,9 +423,6 @@ class Fn:
             env_a = self.env
             self.env, self.reassigned = dict(saved_env), set(saved_re)
             b = self.block(s.orelse + rest, ind + 1, opt, tail)
-            for k in set(env_a) & set(self.env):
-                if env_a[k] != self.env[k]:
-                    _bad(s, "variable has different types in the two branches")
             return f"{pad}if {cond} then\n{a}\n{pad}else\n{b}"
         if isinstance(s, ast.While):
             if tail is not None or s.orelse:
@@ -414,7 +444,9 @@ class Fn:
             hparam = "(H : List UInt8 → List UInt8) " if self.uses_hash_anywhere else ""
             hpass = "H " if self.uses_hash_anywhere else ""
             cond = self.test(s.test)
+            self.in_loop = True
             body = self.block(s.body, 3, True, tail=f"{lname} {hpass}fuel {tup}")
+            self.in_loop = False
             if self.vars_tuple() != names:
                 _bad(s, "loop body defines new variables")
             self.loops.append(
@@ -490,13 +522,14 @@ PROPS_OF = {
     "next_power_2": ["C02", "C10"],
     "merkle_root": ["C02", "C10"],
     "safe_join": ["C19"],
+    "normalize_piece_length__str": ["C12"],
 }
 
 
 def translate_one(fn, repo=None):
     """-> (lean text, digest of the Python source).  Raises TranslationError."""
     rel, ptypes = TARGETS[fn]
-    node = source_of(fn, rel, repo)
+    node = source_of(fn.split("__")[0], rel, repo)
     digest = hashlib.sha256(ast.unparse(node).encode()).hexdigest()[:16]
     tr = Fn(fn, node, ptypes)
     body = tr.translate()
